@@ -4,7 +4,7 @@
 From Coq Require Import Permutation.
 From CR Require Import Base Atomic Machine LinksFacts HeapFacts TraceFacts TraceTotal Local StackBound
   Termination Perm StdRc StdRefine Tokens InvDef InvLemmas ActBase ActHandles ActAdopt ActMove ActConsume
-  StepFrames StepPanic Purge GroupOps DropDec Group DropLast StepInv RunInv Consequences Common.
+  StepFrames StepPanic Purge GroupOps DropDec Group DropLast StepInv RunInv Consequences Borrow Common.
 Local Open Scope N_scope.
 
 (** every script action — create, clone, drop (possibly starting a nested
@@ -39,3 +39,28 @@ Theorem C10_upgrade_dying_peer_is_none :
         reg_get s' dst = RStrong o).
 Proof. exact upgrade_iff_alive. Qed.
 Print Assumptions C10_upgrade_dying_peer_is_none.
+
+(** "... and no internal borrow conflict panic occurs". The RefCell protocol of
+    the library's atomic regions, as an annotation layer over the model
+    (Proofs/Borrow.v: which table is borrowed how, in which order — a hand
+    transcription of adopt.rs, cycle.rs, drop.rs, trusted like the model): the
+    borrow events of every machine step, every call and every history replay
+    without a conflict and end with nothing borrowed — so no borrow is ever
+    held while user code (a value destructor) runs *)
+Theorem C10_no_borrow_held_across_user_code :
+  forall pri c, exists st', breplay quiescent0 (step_bev pri c) = Some st' /\ quiescent st'.
+Proof. exact no_borrow_across_user_code. Qed.
+Print Assumptions C10_no_borrow_held_across_user_code.
+
+Theorem C10_no_borrow_conflict_in_any_history :
+  forall fuel h s, exists st', breplay quiescent0 (history_bev fuel s h) = Some st' /\ quiescent st'.
+Proof. exact no_borrow_conflict_in_history. Qed.
+Print Assumptions C10_no_borrow_conflict_in_any_history.
+
+(** the definitions have teeth: without the "skip entries naming this" test the
+    purge loop panics (the comment "to avoid an already borrowed error" in drop.rs) *)
+Theorem C10_skip_test_is_what_avoids_the_panic :
+  forall this k n t, In ((this, k), n) t ->
+  breplay quiescent0 (release_links_bev_noskip this t) = None.
+Proof. exact noskip_panics. Qed.
+Print Assumptions C10_skip_test_is_what_avoids_the_panic.
